@@ -26,8 +26,9 @@ Oracle clauses (violation key = C01:<clause>:...):
                 of that type: a registered type code without a slot in make_type_to_unpacker_table()
                 or of_01.unpackers, or a message that a real of_01.Connection.read() (controller
                 side) / switch OFConnection.read() does not hand to its handler
-  edited        encode -> same-length in-place edit of a list member -> encode is not the encoding
-                of the edited value (stale cache)
+  edited        encode -> in-place edit of a list member (same number of elements: reorder, replace,
+                mutate, replace by an element of another size) or of an NXM entry of a carried nx_match
+                (mask added / removed) -> encode is not the encoding of the edited value (stale cache)
   wire          a legal encoding produced by the reference encoder (e.g. NXM entry with an explicit
                 all-ones mask) does not decode -> re-encode to itself / len() disagrees
 A case stops at the first length/layout failure (decoding a wrong encoding proves nothing); a
@@ -2181,7 +2182,11 @@ def run (cfg):
               "member of >= 2 elements (actions, ports, queues, properties, stats bodies, learn specs, bundle slaves) "
               "is encoded, the list is changed in place keeping its length (reversed / element replaced / element's "
               "fields assigned; quick: one of the three per case by checksum, thorough: all + reverse-then-replace) "
-              "and encoded again: must equal a fresh object with the edited value. (10) every message case (22 types, Nicira messages as vendor messages) with wire version 1 is also "
+              "and encoded again: must equal a fresh object with the edited value. Size-changing in-place edits too: "
+              "an element replaced by one of another encoded size (other action, entry with one more nested "
+              "action/property, other learn spec), and for nx_match carriers (nx_match, nx_flow_mod, nxt_packet_in) "
+              "the first maskable NXM entry gets / loses a mask in place, through nx_match attribute assignment or "
+              "through the entry object (quick: one route by checksum; thorough: both, toggled there and back). (10) every message case (22 types, Nicira messages as vendor messages) with wire version 1 is also "
               "written to a real of_01.Connection (ScriptSock, recording handler table) and a real switch-side "
               "OFConnection (RecocoIOWorker receive path): exactly one object must reach the handler, of the "
               "right class, == the original, re-encoding to the same bytes, nothing left in the buffer; and every "
